@@ -796,7 +796,11 @@ impl LdapConnAsync {
 
     /// Repeatedly poll the connection until it exits.
     pub async fn drive(self) -> Result<()> {
-        self.turn(LoopMode::Continuous).await.map(|_| ())
+        let msgmap = self.msgmap.clone();
+        let res = self.turn(LoopMode::Continuous).await.map(|_| ());
+        // Every operation still in flight fails with the connection; their IDs are free again.
+        msgmap.lock().expect("msgmap mutex (drive end)").1.clear();
+        res
     }
 
     #[cfg(any(feature = "tls-native", feature = "tls-rustls"))]
